@@ -307,6 +307,13 @@ func c01Settled(run *evid.Run, n int, churn bool) (evals, placements int) {
 			for _, a := range c01Addressings()[:8] {
 				evals++
 				res := e4.Do(nodes[e].ProxyAddr(), e4.Addressing{Mode: a.Mode, Endpoint: a.Endpoint, Other: a.Other})
+				for r := 0; r < 3 && !(res.Status == 200 || res.Status == 101) && !e4.AllActive(nodes); r++ {
+					// a node was suspected for a moment (starved machine): once everybody is
+					// active again and the tables have settled, decide afresh
+					e4.WaitAllActive(nodes, 30*time.Second)
+					settle(place)
+					res = e4.Do(nodes[e].ProxyAddr(), e4.Addressing{Mode: a.Mode, Endpoint: a.Endpoint, Other: a.Other})
+				}
 				exists := false
 				for k, ep := range c01Endpoints {
 					if ep == a.Endpoint && place&(((1<<uint(n))-1)<<uint(k*n)) != 0 {
@@ -376,8 +383,14 @@ func c01GoAway(run *evid.Run, nodes []*e4.FullNode, settleEmpty func() bool) (ev
 			_ = a.Ln.Close()
 			for e := range nodes {
 				served := false
+				flapResets := 0
 				var last e4.Result
 				for attempt := 0; attempt < 40 && !served; attempt++ {
+					if attempt == 39 && flapResets < 3 && !e4.AllActive(nodes) {
+						e4.WaitAllActive(nodes, 30*time.Second) // starved machine: a healthy node was suspected
+						flapResets++
+						attempt = 0
+					}
 					evals++
 					last = e4.Do(nodes[e].ProxyAddr(), e4.Addressing{Mode: mode, Endpoint: ep})
 					ok := (last.Status == 200 || last.Status == 101) && last.Err == ""
